@@ -200,7 +200,12 @@ func allInstrsDeep(fn *ssa.Function, f func(in ssa.Instruction)) {
 					continue
 				}
 				callee := call.Common().StaticCallee()
-				if callee == nil || !isNewFunc(callee) || callee == g {
+				if callee == nil || callee == g {
+					continue
+				}
+				// looked through: helpers newer than the rules, and function literals of the
+				// function under analysis itself (its own code, called through a local)
+				if !isNewFunc(callee) && !(callee.Parent() != nil && outermost(callee) == outermost(fn)) {
 					continue
 				}
 				args := call.Common().Args
